@@ -164,6 +164,16 @@ class Impl:
             self.node(("step", op[1])).hold()
         elif name == "release":
             self.node(("step", op[1])).release()
+        elif name == "check_consistency":
+            # Trellis.initialize on a non-fresh database: the consistency check with its repair, in
+            # production mode (STEPUP_DEBUG off: a SUCCEEDED step with an unbuilt output is rerun)
+            import os
+            old = os.environ.pop("STEPUP_DEBUG", None)
+            try:
+                wf._check_consistency()
+            finally:
+                if old is not None:
+                    os.environ["STEPUP_DEBUG"] = old
         elif name == "reset_interrupted":
             db = self.db
             db.execute("UPDATE step SET state = ? WHERE state = ?",
@@ -273,7 +283,12 @@ def dependency_cycle(d):
 
 
 class Gen:
-    def __init__(self, rng, impl: Impl, length: int):
+    def __init__(self, rng, impl: Impl, length: int, startup: bool = False):
+        # startup = True: the "startup" family of traces (alphabet op_c of model/GraphCheck.v): a
+        # restart runs the consistency check before reset_interrupted, and a run is sometimes recorded
+        # as successful although an output was never reported (outside the build-loop protocol: this
+        # is the damage Workflow._check_consistency exists to repair)
+        self.startup = startup
         self.rng = rng
         self.impl = impl
         self.length = length
@@ -630,11 +645,42 @@ class Gen:
             if await self.run_to_running(first):
                 await self.g_amenddown(first)
 
+    async def scenario_sloppy(self):
+        """A step with one or two outputs (and sometimes a consumer) is recorded as successful although
+        an output was never reported; the director is restarted: the consistency check must put the
+        step (and nothing else) back to PENDING."""
+        rng = self.rng
+        plan = "./plan.py"
+        if not await self.run_to_running(plan):
+            return
+        a, b = rng.sample(STEPS, 2)
+        outs = rng.choice([("f1",), ("f1", "f2")])
+        spec_a = ((), (), outs, (), "DEFAULT")
+        if await self.record(("define_step", ("step", plan), a, *spec_a)) != "ok":
+            return
+        self.defs[a] = spec_a
+        if rng.random() < 0.5:
+            spec_b = (("f1",), (), ("f3",), (), "DEFAULT")
+            if await self.record(("define_step", ("step", plan), b, *spec_b)) == "ok":
+                self.defs[b] = spec_b
+        self.jobs.pop(plan, None)
+        await self.record(("exec_end", plan, (), "SUCCEEDED", (), True, False))
+        if not await self.run_to_running(a):
+            return
+        hs = self.success_hashes(a)
+        self.jobs.pop(a, None)
+        await self.record(("exec_end", a, (), "SUCCEEDED", hs[1:] if rng.random() < 0.5 else (), True, False))
+        if rng.random() < 0.4:
+            await self.g_dispatch()                 # a consumer may start before the restart
+        await self.g_crash()
+
     async def run(self):
         await self.boot()
         rng = self.rng
         r0 = rng.random()
-        if r0 < 0.4:
+        if self.startup and r0 < 0.7:
+            await self.scenario_sloppy()
+        elif r0 < 0.4:
             await self.scenario()
         elif r0 < 0.75:
             await self.scenario_family()
@@ -661,7 +707,7 @@ class Gen:
             cats += [("confirm", 8, [()]), ("external", 4, [()]), ("envchange", 2, [()])]
             if not self.jobs:
                 cats.append(("finalize", 6, [()]))
-            cats.append(("crash", 1, [()]))
+            cats.append(("crash", 2 if self.startup else 1, [()]))
             name, _, args = rng.choices(cats, weights=[c[1] for c in cats])[0]
             c = (name, *rng.choice(args))
             await getattr(self, "g_" + c[0])(*c[1:])
@@ -772,7 +818,17 @@ class Gen:
         if r < 0.55:
             # success: every output on disk; new_out_hashes = those that differ from the stored hash
             hs = self.success_hashes(label)
+            sloppy = False
+            if self.startup and hs and rng.random() < 0.6:
+                keep = tuple(x for x in hs[1:] if rng.random() < 0.4)   # sloppy: outputs not reported
+                sloppy, hs = True, keep
             op = ("exec_end", label, (), "SUCCEEDED", hs, True, False)
+            if sloppy:
+                self.jobs.pop(label, None)
+                await self.record(op)
+                if rng.random() < 0.6:
+                    await self.g_crash()            # killed right afterwards: restart
+                return
         elif r < 0.75:
             hs = tuple((p, rng.choice([None, self.newhash()])) for p in outs if rng.random() < 0.7)
             op = ("exec_end", label, (), "FAILED", hs, False, False)
@@ -856,6 +912,8 @@ class Gen:
 
     async def g_crash(self):
         self.jobs.clear()
+        if self.startup:
+            await self.record(("check_consistency",))
         await self.record(("reset_interrupted",))
 
 
@@ -961,12 +1019,16 @@ HEADER = ("From Coq Require Import List NArith Bool.\nImport ListNotations.\n"
           "From SV Require Import lib.Bytes model.Graph model.GraphDump model.GraphTree.\nOpen Scope N_scope.\n")
 
 
-async def gen_trace(rng, length, defer_cap=3):
+async def gen_trace(rng, length, defer_cap=3, startup=False):
     impl = Impl(defer_cap)
     await impl.start()
     try:
-        g = Gen(rng, impl, length)
+        g = Gen(rng, impl, length, startup=startup)
         trace = await g.run()
+        if startup:
+            # end with the startup check: after its repair the strict check below must pass
+            await g.record(("check_consistency",))
+            trace = g.trace
         strict = await impl.strict_check()
         return trace, g.opcount, strict
     finally:
